@@ -455,8 +455,9 @@ def case_to_coq(replay, base_x, others):
 # -------------------------------------------------------------------------------------------------
 # configurations
 # -------------------------------------------------------------------------------------------------
-CROSSOVERS = [['one_point'], ['subtree'], ['exchange_parents_one'], ['subtree', 'one_point'], ['exchange_edges'],
-              ['exchange_parents_both'], ['none'], ['exchange_edges', 'exchange_parents_one'], ['subgraph']]
+# index 4 (an evolutionary optimiser in every quick run) carries subgraph crossover
+CROSSOVERS = [['one_point'], ['subtree'], ['exchange_parents_one'], ['subtree', 'one_point'], ['subgraph'],
+              ['exchange_parents_both'], ['none'], ['exchange_edges', 'exchange_parents_one'], ['exchange_edges']]
 MUTATIONS = [['single_add', 'single_change', 'single_drop', 'single_edge'], ['simple', 'growth', 'reduce'],
              ['single_add', 'tree_growth', 'local_growth'], ['single_edge', 'single_drop', 'single_add'], ['single_change']]
 SCHEMES = ['generational', 'steady_state', 'parameter_free']
@@ -507,6 +508,10 @@ def build_groups(ctx):
     for i in range(n_single):
         rng = rng_of('single', i)
         cfg = make_config(rng, i)
+        if cfg['crossover'] == ['subgraph']:    # make sure the crossover is exercised
+            cfg['crossover_prob'] = 1.0
+            cfg['num_of_generations'] = max(cfg['num_of_generations'], 4)
+            cfg['pop_size'] = max(cfg['pop_size'], 4)
         if i % 6 == 1:
             cfg['seed'] = 0                     # the seed value 0 is a seed like any other
         if i % 6 == 5 and cfg['optimiser'] == 'evo':
@@ -665,12 +670,8 @@ def judge(ctx, group, results, tags, verdicts):
                     'CWorkersIsolated': 'parallel mode, joblib identifiers kept off the seeded stream: the history depends on n_jobs',
                     'CFacade': 'GOLEM facade: the history depends on repeat / show_progress / logging level',
                     'CWorkersRepeat': 'parallel mode, n_jobs=2: two runs with one seed give different histories'}[cl]
-            # a dependence on PYTHONHASHSEED is a plain violation: the three crossover sites that chose from
-            # list(set(...)) were repaired in /repo (b8f358b).  subgraph_crossover still chooses from sets of nodes
-            # (division points); the key below is NOT registered as known - it only names the site in the report
-            if cl == 'CHashSeed' and cfg.get('crossover') == ['subgraph']:
-                key = 'C14.subgraph-crossover-hash-order'
-                what += ' (subgraph_crossover: get_subgraphs / connect_subgraphs pick division points from sets of nodes)'
+            # a dependence on PYTHONHASHSEED has no finding key: the crossover sites that chose from sets of nodes
+            # were repaired in /repo (b8f358b, 94c2691)
             if cl in ('CWorkers', 'CWorkersRepeat') and group['family'] == 'facade' and bad \
                     and all(strip_nodes(x) == strip_nodes(base_x) for _, x in bad) \
                     and any(r.get('node_uids_not_in_stream', 0) > 0 for r in results if r['job']['cfg'].get('n_jobs', 1) >= 2):
